@@ -17,6 +17,7 @@ type HTMLGenConfig struct {
 	Soup     bool
 	Doctype  int // 0: html5, 1: legacy, 2: none, 3: late (after a comment)
 	Colons   bool
+	Wide     bool // some elements get 17-60 children / many attributes
 }
 
 func DrawHTMLConfig(t *simkit.Tape) HTMLGenConfig {
@@ -28,6 +29,7 @@ func DrawHTMLConfig(t *simkit.Tape) HTMLGenConfig {
 	c.Soup = t.Bool(1, 2)
 	c.Colons = t.Bool(1, 3)
 	c.Doctype = t.Pick(8, 2, 1, 1)
+	c.Wide = t.Bool(1, 6)
 	return c
 }
 
@@ -49,6 +51,9 @@ type htmlGen struct {
 
 func (g *htmlGen) attrs() {
 	n := g.t.Pick(4, 3, 2, 1)
+	if g.cfg.Wide && g.t.Bool(1, 5) {
+		n = 5 + g.t.Draw(12)
+	}
 	for i := 0; i < n; i++ {
 		var name string
 		if (g.cfg.Foreign || g.cfg.Colons) && g.t.Bool(1, 3) {
@@ -78,7 +83,12 @@ func (g *htmlGen) content(depth int) {
 	if g.t.Bool(1, 3) {
 		n += g.t.Draw(4)
 	}
-	for i := 0; i < n && g.nodes < g.cfg.MaxNodes; i++ {
+	budget := g.cfg.MaxNodes
+	if g.cfg.Wide && g.t.Bool(1, 4) {
+		n = 17 + g.t.Draw(44)
+		budget = g.nodes + n + 4
+	}
+	for i := 0; i < n && g.nodes < budget; i++ {
 		g.nodes++
 		switch g.t.Pick(5, 4, 1, 1, 1) {
 		case 0:
